@@ -493,6 +493,11 @@ func (p *parser) parsePath() (types.Path, error) {
 	if err := p.readToken(); err != nil {
 		return "", err
 	}
+	return p.parsePathRest(path)
+}
+
+// parsePathRest parses { '::' IDENT } after the first component of a path.
+func (p *parser) parsePathRest(path string) (types.Path, error) {
 	for p.tok.Type == tokenDoubleColon {
 		if err := p.readToken(); err != nil {
 			return "", err
@@ -792,7 +797,16 @@ func (p *parser) parseType() (ast.IsType, error) {
 		if err := p.readToken(); err != nil {
 			return nil, err
 		}
-		if err := p.expect(tokenLAngle); err != nil {
+		if p.tok.Type != tokenLAngle {
+			// Set is not a keyword: without '<' it is the name of an entity type or of a
+			// namespace (`entity Set;` is legal), as it is everywhere else a path stands.
+			path, err := p.parsePathRest("Set")
+			if err != nil {
+				return nil, err
+			}
+			return ast.TypeRef(path), nil
+		}
+		if err := p.readToken(); err != nil { // consume '<'
 			return nil, err
 		}
 		elem, err := p.parseType()
